@@ -319,14 +319,14 @@ SPECIAL = ["random_seed", "sample_seed", "identifier", "values_columns", "array_
 
 def gen_cases(tier: str, seed: int):
     r = random.Random(f"{seed}:C10")
-    n = 1300 if tier == "quick" else 25000
+    n = 6000 if tier == "quick" else 60000
     names = list(FORMS)
     for i in range(n):
         form = names[i % len(names)]
         expr, exp, tag = FORMS[form](random.Random(r.randrange(1 << 60)))
         ctxs = CONTEXTS if i % 5 == 0 else [r.choice(CONTEXTS)]
         yield core.jsonable({"kind": "expr", "form": form, "tag": tag, "expr": expr, "exp": _enc(exp), "ctxs": ["select"] + [c for c in ctxs if c != "select"]})
-    for j in range(60 if tier == "quick" else 1500):
+    for j in range(210 if tier == "quick" else 3000):
         yield {"kind": "special", "which": SPECIAL[j % len(SPECIAL)], "seed": r.randrange(1 << 30)}
 
 
